@@ -6,6 +6,7 @@
                 VP[i][j] = F(ts[i], ts[j]; rho), VM[i][j] = F(ts[i], ts[j]; -rho)  (entries [finite, value]),
                 anchor = [num, den] with F(0,0;rho) = 1/4 + num/den (den = 0: no anchor known for this rho)
      "seam"   : two grids VA, VB at rho0 - eps and rho0 + eps, eps = 1e-6 ; r0 = [num, den], bound (Fix) = allowed change, verified here
+     "slepian": two grids VA (rho1) and VB (rho2) with rho1 < rho2, same means and variances: VA <= VB entrywise
      "limit"  : V at rho = 1 - 1e-6 : F -> Phi(min(h,k)) within sqrt(1 - rho^2)
      "product": zero covariance: VG (gaussian with diagonal covariance), VS (sbvn_cdf), N1 (norm_cdf on ts) against the Phi table
      "uniform": box CDF: pts = [[x, y, mx, my, w, h, [finite, value]]] in ticks                                               *)
@@ -34,11 +35,18 @@ CdfLaws(M, ts) ==
       tail1 == {<<i, j>> \in I \X I : (ts[i] >= 80 /\ ts[j] >= 80) /\ ~FLeq(FSub(One, E7), Vv(M, i, j))}
       margA == {<<i, j>> \in I \X I : ts[j] >= 80 /\ ~FClose(Vv(M, i, j), PhiExt(ts[i]), E7)}
       margB == {<<i, j>> \in I \X I : ts[i] >= 80 /\ ~FClose(Vv(M, i, j), PhiExt(ts[j]), E7)}
+      \* the CDF of a standardised pair is symmetric in its two arguments
+      symm  == {<<i, j>> \in I \X I : i < j /\ ~FClose(Vv(M, i, j), Vv(M, j, i), E7)}
+      \* Frechet-Hoeffding bounds: max(0, Phi(h)+Phi(k)-1) <= F(h,k) <= min(Phi(h), Phi(k))
+      frech == {<<i, j>> \in I \X I : ~(FLeq(Vv(M, i, j), FAdd(FMin(PhiExt(ts[i]), PhiExt(ts[j])), E7))
+                                         /\ FLeq(FSub(FAdd(PhiExt(ts[i]), PhiExt(ts[j])), FAdd(One, E7)), Vv(M, i, j)))}
   IN IF range # {} THEN <<"value-outside-unit-interval">> \o First(range)
      ELSE IF tail0 # {} THEN <<"lower-tail-not-zero">> \o First(tail0)
      ELSE IF tail1 # {} THEN <<"upper-tail-not-one">> \o First(tail1)
      ELSE IF margA # {} THEN <<"marginal-differs-from-normal-cdf">> \o First(margA)
      ELSE IF margB # {} THEN <<"marginal-differs-from-normal-cdf">> \o First(margB)
+     ELSE IF frech # {} THEN <<"outside-frechet-bounds">> \o First(frech)
+     ELSE IF symm # {} THEN <<"not-symmetric-in-its-arguments">> \o First(symm)
      ELSE IF mono1 # {} THEN <<"decreasing-in-first-argument">> \o First(mono1)
      ELSE IF mono2 # {} THEN <<"decreasing-in-second-argument">> \o First(mono2)
      ELSE IF rect # {} THEN <<"negative-rectangle-mass">> \o First(rect)
@@ -80,6 +88,12 @@ LimitVerdict(c) ==   \* rho = 1 - 1/big : (F - Phi(min))^2 <= 1 - rho^2
       bad == {<<i, j>> \in I \X I : LET d == FSub(Vv(c.V, i, j), PhiExt(IF (c.ts[i] <= c.ts[j]) THEN c.ts[i] ELSE c.ts[j])) IN ~FLeq(FMul(d, d), FAdd(lim, E15))}
   IN IF ~Fin(c.V) THEN <<"fail", "not-finite", 0, 0>>
      ELSE IF bad # {} THEN <<"fail", "high-correlation-limit">> \o First(bad) ELSE <<"ok", "", 0, 0>>
+\* Slepian: for fixed (h,k) the bivariate normal CDF is non-decreasing in the correlation
+SlepianVerdict(c) ==
+  LET n == Len(c.ts) I == 1..n
+      bad == {<<i, j>> \in I \X I : ~FLeq(Vv(c.VA, i, j), FAdd(Vv(c.VB, i, j), E7))}
+  IN IF ~Fin(c.VA) \/ ~Fin(c.VB) THEN <<"fail", "not-finite", 0, 0>>
+     ELSE IF bad # {} THEN <<"fail", "decreasing-in-the-correlation">> \o First(bad) ELSE <<"ok", "", 0, 0>>
 ProductVerdict(c) ==
   LET n == Len(c.ts) I == 1..n
       badG == {<<i, j>> \in I \X I : c.VG[i][j][1] = 0 \/ ~FClose(Vv(c.VG, i, j), FMul(PhiExt(c.ts[i]), PhiExt(c.ts[j])), E12)}
@@ -98,7 +112,7 @@ UniformVerdict(c) ==   \* coordinates in HALF ticks so that centre +- width/2 is
                 IN p[7][1] = 0 \/ ~FClose(p[7][2], FDivInt(FInt(cx * cy), p[5] * p[6]), E12)}
   IN IF bad # {} THEN <<"fail", "uniform-kernel-not-box-cdf", Min(bad), 0>> ELSE <<"ok", "", 0, 0>>
 Verdict(c) == CASE c.kind = "grid" -> GridVerdict(c) [] c.kind = "seam" -> SeamVerdict(c) [] c.kind = "limit" -> LimitVerdict(c)
-                [] c.kind = "product" -> ProductVerdict(c) [] c.kind = "uniform" -> UniformVerdict(c)
+                [] c.kind = "slepian" -> SlepianVerdict(c) [] c.kind = "product" -> ProductVerdict(c) [] c.kind = "uniform" -> UniformVerdict(c)
 TInit == k = 1
 TNext == /\ k <= Len(Cases)
          /\ PrintT(<<"V", k>> \o Verdict(Cases[k]))
